@@ -54,7 +54,7 @@ os.environ.setdefault("HV_SERIAL", "1")
 
 TICK = 125_000_000  # ns; 1/8 s, so `yield ticks/8` is exact in float and in int(delay * 1e9)
 # restrictions P1-P3 of the pool-engine family lifted (set when the tree carries fixes/C09-pool-abandoned-waiter.diff)
-POOL_LIFT = os.environ.get("HV_C09_POOL_LIFT", "0") == "1"
+POOL_LIFT = os.environ.get("HV_C09_POOL_LIFT", "1") == "1"
 SPIN_LIMIT = 300    # watchdog: resumptions of one blocked process before it gives up
 END_NS = 10**15
 CALL_OPS = {"acq", "try", "acqr", "acqw", "tryr", "tryw", "wait"}
